@@ -562,6 +562,33 @@ def fixed_corpus(probe):
               "c": {"type": "int", "inputBinding": {"position": "$(inputs.c)"}}, "d": {"type": "boolean", "inputBinding": {"prefix": "-d"}},
               "e": {"type": "boolean", "inputBinding": {"prefix": "-e"}}, "n": {"type": "string?", "inputBinding": {"prefix": "-n"}}},
              {"a": ["x", "y"], "b": "new\nline", "c": 3, "d": True, "e": False, "n": None}),
+        # arrays of length 0 / 1 / 2 with itemSeparator x prefix x separate
+        tool({"a0": {"type": "string[]", "inputBinding": {"position": 1, "itemSeparator": ",", "prefix": "-A", "separate": False}},
+              "a1": {"type": "string[]", "inputBinding": {"position": 2, "itemSeparator": ",", "prefix": "-L", "separate": False}},
+              "a2": {"type": "string[]", "inputBinding": {"position": 3, "itemSeparator": ",", "prefix": "-I", "separate": False}},
+              "b1": {"type": "int[]", "inputBinding": {"position": 4, "itemSeparator": ",", "prefix": "--nums=", "separate": False}},
+              "c1": {"type": "string[]", "inputBinding": {"position": 5, "itemSeparator": ":", "prefix": "-S", "separate": True}},
+              "c2": {"type": "string[]", "inputBinding": {"position": 6, "itemSeparator": ":", "prefix": "-T"}},
+              "d0": {"type": "string[]", "inputBinding": {"position": 7, "itemSeparator": ","}},
+              "d1": {"type": "string[]", "inputBinding": {"position": 8, "itemSeparator": ","}},
+              "d2": {"type": "int[]", "inputBinding": {"position": 9, "itemSeparator": "+"}},
+              "e1": {"type": "string[]", "inputBinding": {"position": 10, "prefix": "-E", "separate": False}}},
+             {"a0": [], "a1": ["one"], "a2": ["a", "b", "c"], "b1": [42], "c1": ["solo"], "c2": ["p", "q"], "d0": [], "d1": ["only"],
+              "d2": [1, 2], "e1": ["e"]}),
+        # the same through valueFrom returning arrays
+        tool({"v1": {"type": "string", "inputBinding": {"position": 1, "valueFrom": "${return [self];}", "itemSeparator": ",", "prefix": "-V", "separate": False}},
+              "v2": {"type": "string", "inputBinding": {"position": 2, "valueFrom": "${return [self, 'w'];}", "itemSeparator": ",", "prefix": "-W", "separate": False}},
+              "v3": {"type": "string", "inputBinding": {"position": 3, "valueFrom": "${return [self];}", "itemSeparator": ":", "prefix": "-X"}}},
+             {"v1": "vf1", "v2": "vf2", "v3": "vf3"}),
+        # positions: small, two-digit, three-digit and negative ones, on inputs and on arguments
+        tool({"pa": {"type": "string", "inputBinding": {"position": 100}}, "pb": {"type": "string", "inputBinding": {"position": 9}},
+              "pc": {"type": "string", "inputBinding": {"position": 10}}, "pd": {"type": "string", "inputBinding": {"position": -2}},
+              "pe": {"type": "string", "inputBinding": {"position": 2}}, "pf": {"type": "string", "inputBinding": {"position": -1}},
+              "pg": {"type": "string", "inputBinding": {"position": 11, "prefix": "-g"}}, "ph": {"type": "string", "inputBinding": {"position": 1}},
+              "pi": {"type": "string", "inputBinding": {}}},
+             {"pa": "p100", "pb": "p9", "pc": "p10", "pd": "m2", "pe": "p2", "pf": "m1", "pg": "p11", "ph": "p1", "pi": "p0"},
+             args=[{"valueFrom": "A10", "position": 10}, {"valueFrom": "A2", "position": 2}, {"valueFrom": "Am1", "position": -1},
+                   {"valueFrom": "A100", "position": 100}, {"valueFrom": "A9", "position": 9}, "A0", {"valueFrom": "Am2", "position": -2}]),
         tool({"a": {"type": {"type": "array", "items": "string", "inputBinding": {"prefix": "-i"}}, "inputBinding": {"prefix": "-p"}},
               "r": {"type": {"type": "record", "name": "r_rec", "fields": {"fa": {"type": "string", "inputBinding": {"prefix": "-a", "position": 2}},
                                                                          "fb": {"type": "int", "inputBinding": {"position": 1}}}}, "inputBinding": {"position": 3}},
